@@ -285,6 +285,7 @@ def run_check(prop, tier='quick', seed=0, only=None, nproc=None, verbose=True):
     non_replays = []
     extra_violations = [0]
     known_hits = {}
+    rerun_done = set()      # (obligation, finding id): the search continues with the class excluded ONCE, not once per sub-job
     n_replays = 0
     n_validated = 0
     obl = {}
@@ -366,6 +367,10 @@ def run_check(prop, tier='quick', seed=0, only=None, nproc=None, verbose=True):
                 o['verdict'] = 'known-finding' if o['verdict'] == 'holds' else o['verdict']
                 # continue the search with this class excluded
                 if depth < 6 and hit['id'] not in job.get('exclude', []):
+                    rk = (key, hit['id'], tuple(sorted(job.get('exclude', []))))
+                    if rk in rerun_done:
+                        return
+                    rerun_done.add(rk)
                     j2 = dict(job, exclude=list(job.get('exclude', [])) + [hit['id']])
                     j2.pop('prefix', None)
                     for r2 in run_jobs(modname, [j2], nproc=nproc):
